@@ -4229,6 +4229,57 @@ impl DocumentOrder {
 
 // -----------------------------------------------------------------------------------------------
 
+/// Verification hooks: a thin public wrapper around the private `DocumentOrder` vector.
+#[cfg(feature = "verif")]
+pub mod verif_hooks {
+    use super::*;
+
+    /// `attached` infos with ids 1..=attached pushed in order, then `detached` further infos that are not in the vector.
+    pub struct Order {
+        order: DocumentOrder,
+        infos: Vec<Singleton<ContextInfo>>,
+    }
+
+    impl Order {
+        pub fn new(attached: usize, detached: usize) -> Self {
+            let mut order = DocumentOrder::default();
+            let mut infos = vec![];
+            for id in 1..=(attached + detached) {
+                let info = singleton(ContextInfo::from(id));
+                if id <= attached {
+                    order.push(&info);
+                }
+                infos.push(info);
+            }
+            Order { order, infos }
+        }
+
+        pub fn insert_after(&mut self, anchor_id: usize, mover: usize) -> Option<usize> {
+            let info = self.infos[mover].clone();
+            self.order.insert_after(anchor_id, &info)
+        }
+
+        pub fn insert_before(&mut self, anchor_id: usize, mover: usize) -> Option<usize> {
+            let info = self.infos[mover].clone();
+            self.order.insert_before(anchor_id, &info)
+        }
+
+        pub fn remove(&mut self, id: usize) -> Option<usize> {
+            self.order.remove(id)
+        }
+
+        pub fn push(&mut self, mover: usize) -> (usize, usize) {
+            let info = self.infos[mover].clone();
+            self.order.push(&info)
+        }
+
+        /// the key of every info (0 = not in the vector), by index
+        pub fn keys(&self) -> Vec<usize> {
+            (1..=self.infos.len()).map(|id| self.order.get(id)).collect()
+        }
+    }
+}
+
 fn attribute_name(name: &parser::AttributeName) -> (String, Option<String>) {
     match name {
         parser::AttributeName::DefaultNamespace => ("xmlns".to_string(), None),
